@@ -38,6 +38,7 @@ static void __attribute__((noinline)) paint_stack(int pattern)
     volatile uint8_t area[6144];
     size_t i;
     for (i = 0; i < sizeof(area); ++i) area[i] = (uint8_t)pattern;
+    if (g_paint >= 0) verif_paint_stack();     /* under the C11 builds the common painter (and MSan poison) takes over */
 }
 
 /* entry points */
@@ -81,6 +82,7 @@ static void holder_prepare(Holder *h, int ep, int be, int prior)
                                       {0xF0,0xE1,0xD2,0xC3,0xB4,0xA5,0x96,0x87,0x78,0x69,0x5A,0x4B,0x3C,0x2D,0x1E,0x0F,0x11,0x22,0x33,0x44,0x55,0x66,0x77,0x88}};
     unsigned pl = (unsigned)ep_bs(ep) * (prior == 2 ? 2 : 1);
     memset(h, prior == 0 ? 0xA5 : 0, sizeof(*h));
+    if (prior == 0) verif_paint_obj(h, sizeof(*h));
     memset(&h->co, 0, sizeof(h->co)); memset(&h->po, 0, sizeof(h->po));
     switch (ep) {
     case EP_S128_KEY: case EP_S128_TKEY: if (prior) skinny128_set_tweaked_key(&h->k128, pk[prior - 1], pl); break;
@@ -184,6 +186,7 @@ static void c10_case(int ep, int be, unsigned len, const uint8_t *keybytes, int 
             paint_stack(0x6D);
             r = holder_setkey(&h1, ep, len == 0 ? (const void *)guard_page_end : (const void *)kp, len);
             l2 = holder_full_image(&h1, ep, img2, sizeof(img2));
+            verif_unpoison(img1, l1); verif_unpoison(img2, l2);   /* a never-keyed caller object is painted/poisoned by design */
             if (r != 0) {
                 snprintf(sig, sizeof(sig), "C10/%s/out-of-range-length-accepted", EPNAME[ep]);
                 violation(sig, cd, "%s accepted key length %u (documented range %d..%d), returned %d", EPNAME[ep], len, lo, hi, r);
@@ -214,6 +217,7 @@ static void c10_case(int ep, int be, unsigned len, const uint8_t *keybytes, int 
             holder_release(&h1, ep); holder_release(&h2, ep); guard_leave(); return;
         }
         l1 = holder_sched_image(&h1, ep, img1); l2 = holder_sched_image(&h2, ep, img2);
+        out_digest("key-schedule-after-set_key", img1, l1); out_digest("key-schedule-after-padded-set_key", img2, l2);
         if (l1 != l2 || memcmp(img1, img2, l1) != 0) {
             size_t d = 0; while (d < l1 && d < l2 && img1[d] == img2[d]) ++d;
             snprintf(sig, sizeof(sig), "C10/%s/not-zero-padded/%s", EPNAME[ep], len % (unsigned)bs ? "in-between-length" : "primary-length");
@@ -223,6 +227,7 @@ static void c10_case(int ep, int be, unsigned len, const uint8_t *keybytes, int 
         for (i = 0; i < 6; ++i) {
             lcg_fill(blk, 16, 60 + (uint32_t)i); if (i == 0) memset(blk, 0, 16);
             holder_encrypt(&h1, ep, blk, o1); holder_encrypt(&h2, ep, blk, o2);
+            out_digest("ciphertext-after-set_key", o1, (size_t)bs);
             if (ep_tweaked(ep)) { uint8_t zt[16] = {0}; ref_skinny_tweak_encrypt(bs, pk, (int)padded, zt, blk, ref); }
             else ref_skinny_key_encrypt(bs, pk, (int)padded, blk, ref);
             if (memcmp(o1, o2, (size_t)bs) != 0 || memcmp(o1, ref, (size_t)bs) != 0) {
